@@ -295,6 +295,27 @@ def check(ctx):
         and ctor.cfg.path_avoiding((ctor.cfg.entry, -1), {initc[0]['i']}, 'exit') is None
     ctx.ob('C04.R1.ctor-init-last', 'Position(fen)', ok and len(hashed) >= 6,
            'the constructor computes the key (HashKey::init) on every path, after the last write to every hashed field', site=ctor.loc())
+    # ... and init() XORs into the components: nothing may have touched the key between its construction and init()
+    hk_mut = {f.id for f in p.funcs.values() if f.name.startswith(HK + '::') and f.body is not None and not f.d.get('const') and
+              short(f.name) not in ('init', 'HashKey') and (f.cls or '') == HK}
+    n_init = 0
+    for f in p.funcs.values():
+        if f.body is None:
+            continue
+        ics = [n for n, cfid, nm in f.calls() if nm == HK + '::init']
+        for ic in ics:
+            n_init += 1
+            early = []
+            for n, cfid, nm in f.calls():
+                if n is ic or cfid not in p.funcs:
+                    continue
+                if (cfid in hk_mut or (p.reachable_from([cfid]) & hk_mut)) and \
+                        f.cfg.path_avoiding(f.cfg.position(n), set(), {ic['i']}) is not None:
+                    early.append('%s at line %s' % (short(nm), n.get('l')))
+            ctx.ob('C04.R1.init-on-untouched-key', short(f.name), not early,
+                   'HashKey::init XORs the position into the components, so no incremental key update runs before it in %s%s'
+                   % (short(f.name), '' if not early else ' — before init: ' + ', '.join(early)), site=f.loc(ic))
+    ctx.floor('C04.R1.init-on-untouched-key', n_init, 1, 'calls of HashKey::init')
     zero = [i for i in ctor.d.get('inits', []) if i.get('field') == '_zobrist_hash']
     hkc = [f for f in p.fns(HK + '::HashKey')]
     z_ok = bool(zero) and len(hkc) == 1 and all(const_of(strip_casts(i['init'])) == 0 for i in hkc[0].d.get('inits', [])) \
